@@ -107,6 +107,7 @@ def main(tier):
             V.add("spec:MC_Quote:" + str(mc["violated"]), {"trace": tlc.counterexample(mc["out"])})
         obs = common.pool_map(observe, cs, initfn=common.import_repo, hard_timeout=30,
                               on_timeout=lambda c: {"s": cps(c[0]), "q": [], "vals": [], "err": "hang"})
+        common.retry_hangs(cs, obs, observe)      # a watchdog firing under load is re-observed alone, with longer alarms
         verdicts, st = tlc.validate(s, "Trace_Quote", obs, cfg="Trace_Quote.cfg", chunk=5000)
     tally = {}
     for (sv, dc, *cx), v, o in zip(cs, verdicts, obs):
